@@ -881,6 +881,7 @@ type loopInfo struct {
 	preState *State
 	accum   []*ssa.Phi
 	accumPre map[*ssa.Phi]Term
+	reach   Term
 	preAlloc Term
 }
 
@@ -925,8 +926,14 @@ func (e *Exec) globalConst(g *ssa.Global) (Term, bool) {
 	if !e.declared[name] {
 		e.declared[name] = true
 		e.symAt[name] = len(e.items)
-		e.items = append(e.items, Item{Kind: ItemDecl, Sym: name, Text: fmt.Sprintf("(declare-const %s Int)", name)})
-		e.assume(And(app(">", name, "0"), app("<=", name, e.compInit[allocComp])), "global initialised once to a non-nil value (checked on the SSA program)")
+		so := e.reg.sortOf(deref(g.Type()))
+		e.items = append(e.items, Item{Kind: ItemDecl, Sym: name, Text: fmt.Sprintf("(declare-const %s %s)", name, so)})
+		switch so {
+		case "Int":
+			e.assume(And(app(">", name, "0"), app("<=", name, e.compInit[allocComp])), "global initialised once to a non-nil value (checked on the SSA program)")
+		case "Any":
+			e.assume(And(Not(Eq(name, "nil_any")), Implies(app("(_ is box_ref)", name), And(app(">", app("ref", name), "0"), app("<=", app("ref", name), e.compInit[allocComp])))), "global initialised once to a non-nil value")
+		}
 	}
 	return name, true
 }
@@ -1348,6 +1355,7 @@ func (e *Exec) enterLoop(f *Frame, li *loopInfo, h *ssa.BasicBlock, st *State, r
 		entryPhi[phi] = e.mergeVals(vs, conds, f.prefix+phi.Name()+"_entry")
 	}
 	li.preState = st.clone()
+	li.reach = reach
 	li.preAlloc = e.allocCtr(st)
 	li.accum = nil
 	// 2. symbols for the loop-carried values (an arbitrary iteration) and their automatic facts
